@@ -410,7 +410,10 @@ func genRoot(g *Gen, flavour int) rootDesc {
 			absent := g.Chance(1, 8)
 			switch g.Intn(10) {
 			case 0, 1: // symlink
-				targ := g.Pick("lib"+pn+".so.1", "../bin/c89", "/etc/passwd", "nowhere", b.oddName())
+				// targets as they are, however they are spelt: a trailing slash, "./", "//", an
+				// inner "..", and one containing the " -> " that separates name and target in CONTENTS
+				targ := g.Pick("lib"+pn+".so.1", "../bin/c89", "/etc/passwd", "nowhere", b.oddName(),
+					"../lib/", "./lib"+pn+".so.1", "..//bin//c89", "x/../nowhere", "a -> b", "/opt/x -> y/z")
 				if targ == path.Base(name) {
 					targ = "../../usr/bin/c89"
 				}
@@ -669,10 +672,16 @@ func genRoot(g *Gen, flavour int) rootDesc {
 			b.file("/srv/data/sub/three")
 			b.sym("/srv/data/lnk", "one")
 			lines = append(lines, g.Pick("file /srv/data/*", "dir /srv/*", "dir /srv/data/*", "file /srv/data/o* mod=0444", "tbd /srv/data/t*"))
-		case 12: // wildcard source
+		case 12: // wildcard source, flat and with a nested directory
 			ext.file("/many/f1")
 			ext.file("/many/f2 x")
-			lines = append(lines, "file /copies src=$EXT/many/*")
+			if g.Chance(1, 2) {
+				lines = append(lines, "file /copies src=$EXT/many/*")
+			} else {
+				ext.file("/many/deeper/f3")
+				ext.file("/many/deeper/still/f1")
+				lines = append(lines, "dir /copies src=$EXT/many/*")
+			}
 		case 13:
 			if flavour == 3 {
 				lines = append(lines, g.Pick("omit /not/a/member", "file /does/not/exist", "file /etc", "symlink /no/target"))
